@@ -1422,7 +1422,7 @@ OBLIGATIONS = {
             ("core", "InitialExpr::replace_inner_exprs"), ("core", "ActionExpr::replace_inner_exprs"),
             ("core", "ExprGroup::replace_inner_exprs")],
     # the `~` mark (Deferred) reaches the generator unchanged: suffix of parse_until, parse_stream, the wrapper placeholder
-    "C03": [("gen", "JoinOutput::wrap_into_block"), ("top", "JoinOutput::new"), ("top", "JoinOutput::new_fields"), ("top", "lemma_new_fields"), ("step", "JoinOutput::generate_step"), ("step", "lemma_apos_step"), ("step", "lemma_apos_ends"), ("gen", "JoinOutput::generate_step_branch"), ("steps", "JoinOutput::generate_steps"), ("gen", "JoinOutput::split_branch_steps"), ("gen", "vec_last_push"), ("parse", "parse_until_suffix"), ("parse", "ActionGroup::parse_stream"), ("core", "ActionGroup::to_wrapper_action_expr"),
+    "C03": [("builder", "ActionExprChainBuilder::build_from_parse_stream"), ("builder", "ActionExprChain::append_member"), ("gen", "JoinOutput::wrap_into_block"), ("top", "JoinOutput::new"), ("top", "JoinOutput::new_fields"), ("top", "lemma_new_fields"), ("step", "JoinOutput::generate_step"), ("step", "lemma_apos_step"), ("step", "lemma_apos_ends"), ("gen", "JoinOutput::generate_step_branch"), ("steps", "JoinOutput::generate_steps"), ("gen", "JoinOutput::split_branch_steps"), ("gen", "vec_last_push"), ("parse", "parse_until_suffix"), ("parse", "ActionGroup::parse_stream"), ("core", "ActionGroup::to_wrapper_action_expr"),
             ("core", "ActionGroup::new"), ("core", "ExprGroup::application_type"), ("core", "ExprGroup::new")],
     "C06": [("top", "JoinOutput::new_fields"), ("top", "lemma_new_fields"), ("steps", "JoinOutput::generate_steps"), ("steps", "JoinOutput::join_steps"), ("steps", "lemma_join_comma"), ("steps", "lemma_count_take_step"), ("gen", "JoinOutput::split_branch_steps"), ("parse", "parse_until_suffix"), ("parse", "ActionGroup::parse_stream"), ("core", "ActionGroup::to_wrapper_action_expr"),
             ("core", "ActionGroup::new"), ("core", "ExprGroup::application_type"), ("core", "ExprGroup::new")],
